@@ -173,22 +173,22 @@ func Abbreviate(s string, n int) string {
 	if len(s) <= n {
 		return s
 	}
-	if n < 3 {
-		return ""
-	}
 	p := 0
 	n2 := 0
 	for i := range s {
-		switch p {
-		case n - 2:
+		if p == n-2 {
 			n2 = i
-		case n:
-			break
 		}
 		p++
+		if p > n {
+			break
+		}
 	}
-	if p < n {
+	if p <= n {
 		return s
+	}
+	if n < 3 {
+		return ""
 	}
 	if p = strings.LastIndexAny(s[:n2], spaces); p > 0 {
 		s = strings.TrimRight(s[:p], spaces)
